@@ -322,6 +322,58 @@ def case_transient(name, opts, dtype):
     return CaseResult(fails=fails, states=states, transitions=3, traces=3, outcome=f"transient:{tag}:{dtype}")
 
 
+def case_mixed_layout(name, opts, dtype):
+    """On the GENERATED CODE (pystencils -> g++): every array argument gets a different memory layout (contiguous,
+    window of a padded array, every second cell of a larger array, ... rotating over the arguments), so that no two
+    arguments share strides - the generated kernel must take each argument's own strides."""
+    real_t = np.dtype(dtype).type
+    eps = float(np.finfo(real_t).eps)
+    cdt = np.complex64 if real_t == np.float32 else np.complex128
+    sp = kernelspec.spec(name, opts)
+    d = registry.gen_dim(name)
+    fails = []
+    tag = f"{name}:{','.join(f'{k}={v}' for k, v in sorted(opts.items()) if k not in ('buffers', 'midstep'))}"
+    shape = shapes_for(name, opts)[3]
+    shim.set_backend("jit")
+    try:
+        fn, aux = registry.instantiate(name, opts, real_t, num_threads=False, shape=shape)
+        states = 0
+        for rot in range(2):
+            views, A = {}, {}
+            for k, (arg, kind, role) in enumerate(sp["arrays"]):
+                shp = shape if kind in ("s", "s+", "c") else (d, *shape)
+                vals = _values(shp, k, kind, "dense", sp.get("input_scale", 1.0))
+                if kind == "c":
+                    vals = vals + 1j * _values(shp, k + 7, kind, "dense")
+                layout = ("offset", "contiguous", "strided")[(k + rot) % 3]
+                views[arg], _base = _bind(vals, cdt if kind == "c" else real_t, layout)
+                if role == "out":
+                    _sentinel(views[arg])
+                A[arg] = views[arg].astype(np.complex128 if kind == "c" else np.float64).copy()
+            s_pass, s_mean = kernelspec.scalar_variant(sp["scalars"], "generic:float", real_t)
+            pre = {a: v.copy() for a, v in views.items()}
+            fn(**views, **s_pass)
+            expected = sp["ref"](A, s_mean, aux)
+            for arg, kind, role in sp["arrays"]:
+                if arg not in expected:
+                    continue
+                exp, mask = expected[arg]
+                mask = np.broadcast_to(mask, views[arg].shape)
+                got = views[arg].astype(np.complex128 if kind == "c" else np.float64)
+                in_mag = max([float(np.abs(A[a_]).max()) for a_, _k, r_ in sp["arrays"] if r_ != "out"] + [0.0])
+                e = np.asarray(exp)[mask]
+                mag = 1.0 + in_mag**2 + float(np.abs(e).max() if e.size else 0)
+                states += 1
+                if e.size and not np.all(np.abs(got[mask] - e) <= 64 * eps * mag):
+                    fails.append(Fail(f"{tag}:mixed-layouts", "generated kernel called with arguments of DIFFERENT memory layouts does not produce its documented value (an argument read or written with another argument's strides?)",
+                                      argument=arg, shape=shape, dtype=dtype, layouts={a: ("offset", "contiguous", "strided")[(k + rot) % 3] for k, (a, _k2, _r) in enumerate(sp["arrays"])}))
+                if np.ascontiguousarray(views[arg][~mask]).tobytes() != np.ascontiguousarray(pre[arg][~mask]).tobytes():
+                    fails.append(Fail(f"{tag}:mixed-layouts:outside-region", "cells outside the documented region changed", argument=arg))
+    finally:
+        shim.set_backend("interp")
+    return CaseResult(fails=fails, states=states, transitions=2, traces=2, outcome=f"mixed:{tag}:{dtype}")
+
+
 def case_stiff(name, opts, dtype):
     """Brinkmann kernels with a stiff penalty (2.75e6) and a target that is exactly zero: the documented quotient
     (u + lambda chi u_b) / (1 + lambda chi) is then u / (1 + lambda chi) to a few ulps of ITSELF; a rearranged
@@ -356,7 +408,7 @@ def case_stiff(name, opts, dtype):
     return CaseResult(fails=fails, states=int(sel.sum()), transitions=1, traces=1, outcome=f"stiff:{name}:{opts.get('field_type')}:{dtype}:{int(sel.sum()) > 0}")
 
 
-CASES = {"generator": case_generator, "inplace": case_inplace, "transient": case_transient, "stiff": case_stiff}
+CASES = {"mixed_layout": case_mixed_layout, "generator": case_generator, "inplace": case_inplace, "transient": case_transient, "stiff": case_stiff}
 
 
 def run(r) -> None:
@@ -372,6 +424,7 @@ def run(r) -> None:
     r.run_cases("generators", "generator", cases)
     inpl = [dict(name=n, opts=o, dtype=dt) for n, o in registry.entries() if any(e in n for e in ELEMENTWISE) and not o.get("fixed") for dt in ("float64", "float32")]
     r.run_cases("in-place-calls", "inplace", inpl)
+    r.run_cases("mixed-layouts-generated-code", "mixed_layout", [dict(name=n, opts=o, dtype=dt) for n, o in registry.entries() if not o.get("fixed") and not o.get("length") for dt in ("float64", "float32")])
     r.run_cases("stiff-penalty", "stiff", [dict(name=n, opts=o, dtype=dt) for n, o in registry.entries() if "brinkmann" in n for dt in ("float64", "float32")])
     r.run_cases("transient-view-history", "transient", [dict(name=n, opts=o, dtype=dt) for n, o in registry.entries() for dt in ("float64", "float32")])
     r.bounds = {"generators_x_options": len(registry.entries()), "dtypes": 2, "shapes_per_generator": "4 from the minimal size up + one long axis (70 / 36 cells) in every position", "bindings": BINDINGS, "patterns": PATTERNS, "scalar_arguments": kernelspec.SCALAR_VARIANTS, "call_styles": ["keyword", "positional (wrapper closures)"], "backends": ["interp"] if quick else ["interp", "jit"]}
